@@ -104,5 +104,8 @@ package workerapi
 //@   requires s != nil
 //@   modifies *
 //@   calls Dequeue requires [C11:dequeue_only_after_authorize] authzPassed == old(authzPassed) + 1
-//@   loop 1 invariant [copied_so_far] rangeindex < len(outcome.Items) && len(items) == rangeindex + 1 && forall k int :: 0 <= k && k < len(items) ==> items[k] != nil && items[k].Payload == outcome.Items[k].Payload && items[k].Id == outcome.Items[k].ID && items[k].LeaseId == outcome.Items[k].LeaseID && items[k].Route == outcome.Items[k].Route && (forall h string :: ((h in items[k].Headers) <==> (h in outcome.Items[k].Headers)) && (h in outcome.Items[k].Headers ==> items[k].Headers[h] == outcome.Items[k].Headers[h]))
+//@   loop 1 invariant [one_item_each] rangeindex < len(outcome.Items) && len(items) == rangeindex + 1 && forall k int :: 0 <= k && k < len(items) ==> items[k] != nil && fresh(items[k]) && allocated(items[k])
+//@   loop 1 invariant [copied_bytes_and_ids] forall k int :: 0 <= k && k < len(items) ==> items[k].Payload == outcome.Items[k].Payload && items[k].Id == outcome.Items[k].ID && items[k].LeaseId == outcome.Items[k].LeaseID && items[k].Route == outcome.Items[k].Route
+//@   loop 1 invariant [copied_headers] forall k int, h string :: 0 <= k && k < len(items) ==> ((h in items[k].Headers) <==> (h in outcome.Items[k].Headers)) && (h in outcome.Items[k].Headers ==> items[k].Headers[h] == outcome.Items[k].Headers[h])
+//@   loop 1 invariant [header_maps_fresh_or_nil] forall k int :: 0 <= k && k < len(items) ==> items[k].Headers == nil || fresh(items[k].Headers)
 //@   ensures [C07:grpc_items_carry_the_stored_bytes_and_headers] result1 == nil ==> result0 != nil && len(result0.Items) == len(lastDequeued) && forall k int :: 0 <= k && k < len(result0.Items) ==> result0.Items[k] != nil && result0.Items[k].Payload == lastDequeued[k].Payload && result0.Items[k].Id == lastDequeued[k].ID && result0.Items[k].LeaseId == lastDequeued[k].LeaseID && (forall h string :: ((h in result0.Items[k].Headers) <==> (h in lastDequeued[k].Headers)) && (h in lastDequeued[k].Headers ==> result0.Items[k].Headers[h] == lastDequeued[k].Headers[h]))
